@@ -176,7 +176,7 @@ func main() {
 			exit = c.FinishNoEvidence(*verif)
 			return
 		}
-		exit = c.Finish(*verif, r.Explain, t0, seed, extra)
+		exit = c.Finish(*verif, r.Explain+extraExplainFor(*prop), t0, seed, extra)
 	}()
 	os.Exit(exit)
 }
